@@ -354,7 +354,7 @@ func genC10(tier string) []Scenario {
 			continue // a retrying flow is not a plain state machine: covered by C04
 		}
 		out = append(out, nestedScenario(fmt.Sprintf("nested-vs-flat shape#%d=%s", i, d), d))
-		if d.slot >= 0 && d.inner.slot < 0 && !d.reuse && !d.uses(shSelfRec) {
+		if d.slot >= 0 && d.inner.slot < 0 && !d.reuse && !d.uses(shSelfRec) && (tier == "thorough" || d.base != 4) {
 			out = append(out, nestedScenarioOpt(fmt.Sprintf("nested-vs-flat reconnect-inner-then-rerun shape#%d=%s", i, d), d, modeReconnectInner))
 		}
 		if d.slot >= 0 && (tier == "thorough" || d.inner.slot < 0) {
